@@ -728,6 +728,10 @@ func (h *runner) ensureCases(n int) {
 				}
 			}()
 			nn, err := util.EnsureRead(context.Background(), cr, buf)
+			if nn > uint64(len(buf)) {
+				res.Fail("ensure-read-short", fmt.Sprintf("EnsureRead returned n=%d for a %d-byte buffer", nn, k), replay{Kind: "ensure", Input: hex.EncodeToString(d), Chunking: &ck, Count: k})
+				nn = uint64(len(buf))
+			}
 			switch {
 			case err == nil:
 				data = buf[:nn]
@@ -886,7 +890,7 @@ func (h *runner) frames(n int) {
 			if o.tag != tagErr {
 				res.Fail("truncation-accepted-frame", fmt.Sprintf("prefix of %d/%d framed bytes, chunking=%+v: tag=%d %s", c, framed, ck, o.tag, o.msg), replay{Kind: "frame", Input: shortHex(w[:c]), Count: nb, Chunking: &ck})
 			}
-			if c%4 == 0 {
+			if c%6 == 0 {
 				h.addFrameCase(w[:c], ck, nb, o)
 			}
 		}
@@ -1009,7 +1013,7 @@ func child(o *vh.Opts) {
 	}
 	lap("corpus")
 	// generated lists
-	nl := o.Pick(160, 6000)
+	nl := o.Pick(130, 4000)
 	nTrunc := 200
 	for i := 0; i < nl; i++ {
 		m := randList(h.r)
@@ -1066,9 +1070,9 @@ func child(o *vh.Opts) {
 		}
 	}
 	lap("random big lists")
-	h.ensureCases(o.Pick(300, 3000))
+	h.ensureCases(o.Pick(200, 3000))
 	lap("ensure")
-	h.frames(o.Pick(60, 1200))
+	h.frames(o.Pick(40, 1200))
 	lap("frames")
 
 	var ms runtime.MemStats
